@@ -380,6 +380,29 @@ Definition read_packet_v2 (has_dec : bool) (s : stream) (p : packet) : rhb packe
 End Codec.
 
 (* ------------------------------------------------------------------------------------ *)
+(* a writer that fails: it accepts [k] more bytes; a Write that does not fit takes what fits
+   and returns an error.  WritePacket / WriteLenData return (0, err) at the first failing Write
+   and make no further call.  Result: the Write calls made, whether all succeeded, and the
+   number of bytes the writer accepted. *)
+Fixpoint run_writer (k : N) (ws : list bytes) : list bytes * bool * N :=
+  match ws with
+  | [] => ([], true, 0)
+  | w :: r =>
+      if lenN w <=? k then
+        let '(c, ok, a) := run_writer (k - lenN w) r in (w :: c, ok, lenN w + a)
+      else ([w], false, k)
+  end.
+
+(* the result of a WritePacket call whose writer has room for k bytes *)
+Definition to_writer (k : N) (w : wres) : wres :=
+  match w_ret w with
+  | None => w
+  | Some n =>
+      let '(c, ok, _) := run_writer k (w_writes w) in
+      mkWres (if ok then Some n else None) c (w_pkt w)
+  end.
+
+(* ------------------------------------------------------------------------------------ *)
 (* codec.WriteLenData / ReadLenData (no cipher, no compression) *)
 
 (* returns (n, writes): the count is the number of bytes handed to the writer *)
